@@ -16,7 +16,7 @@ pub fn def() -> PropDef {
         check,
         nontrivial,
         rule: "handle-manipulation programs of 1-3 clients (clone, downgrade, upgrade, conversions between all kinds, move between clients, drop in any order, drop-then-join) interleaved with submissions, with interval / interval_with / delayed timers and a broker subscription active and, in a sub-family, the service registry as the only strong holder; no stop request, no fault; x seeded schedules; oracle = strong-handle census replayed from the log vs. actor liveness, plus task census at quiescence; non-trivial = the last strong handle went away while an accepted message was still unhandled or while a weak handle, timer or subscription existed; distinct = distinct order of client-op and callback events",
-        needed_probes: &["c05_alive_with_handles_checked", "c05_last_drop_drain_checked", "c05_upgrade_after_last_drop", "c05_died_before_weak_dropped", "c05_registry_holder"],
+        needed_probes: &["c05_alive_with_handles_checked", "c05_last_drop_drain_checked", "c05_upgrade_after_last_drop", "c05_died_before_weak_dropped", "c05_registry_holder", "c05_prompt_termination_checked"],
         quick_runs: 100_000,
         thorough_runs: 2_000_000,
         block: 1,
@@ -292,6 +292,16 @@ pub fn check(v: &View) -> Vec<Violation> {
                 crate::log::probe("c05_died_before_weak_dropped");
                 if a.dead.is_none_or(|d| d > dropped) && !cen.lib_temporaries_possible && !cen.maybe_at(t0) && !v.busy_at(a, dropped) {
                     out.push(violation(P, "kept-alive-without-strong-handle", "", format!("actor {aidx}: the last strong handle went away at seq {t0} but the actor was still running when the weak handles were dropped at {dropped} (dead {:?})", a.dead)));
+                }
+            }
+            // ... and promptly: on the ideal clock an idle actor whose last strong handle goes away
+            // notices in the same virtual instant (nothing but a hidden strong reference - a timer,
+            // a subscription, the context - could make it linger)
+            if v.sc.sched.racing_per_mille == 0 && !cen.lib_temporaries_possible && !cen.maybe_at(t0) && !v.busy_at(a, t0) && v.out.outcome.cap_phase == 0 {
+                crate::log::probe("c05_prompt_termination_checked");
+                let t0_vt = v.vtime_at(t0);
+                if a.dead.is_none() || a.dead_vt > t0_vt {
+                    out.push(violation(P, "lingered-after-last-drop", "", format!("actor {aidx}: idle when its last strong handle went away at seq {t0} (t={t0_vt}), but it only terminated at t={} (dead {:?}): something other than a strong handle kept it alive", a.dead_vt, a.dead)));
                 }
             }
             // join after the last drop yields the value
